@@ -19,7 +19,7 @@ V = {
                       idx='idx_HyperDualVec i j', bind='i j', re='HyperDualVec_f_re', inidx='', wfpre='wf', wfarg=''),
 }
 out = ['''(* Proofs/C07_inst.v -- written by tools/coqgen/gen_c07.py *)
-From ND Require Import Tactics C02_proofs C01_towers C01_faa C08_lift C07_proofs.
+From ND Require Import Tactics C02_proofs C01_towers C01_faa C08_lift C09_proofs C09_faa C07_proofs.
 Local Open Scope R_scope.
 ''']
 thms = []
@@ -117,13 +117,21 @@ for T, d in V.items():
              "intros y Wy Dy S F; %s; exact (faa_%s_%s %s S HS).") % (
                 'Wx Wx2' if T != 'DualVec' else '', T, T, fn, fn, domf, ex, T, fn,
                 ('i j y ' if T != 'DualVec' else 'i y ') + ('Dy ' if dom != 'True' else '') + ('Wy' if T != 'DualVec' else '')))
+    # powers: integer and real exponents (the faa statements of C09 hold for every exponent and every operand, no domain condition)
+    for pw, nty in (('powi', 'Z'), ('powf', 'R')):
+        wfp = '%s x -> ' % wf if T != 'DualVec' else ''
+        wfp2 = "%s x' -> " % wf if T != 'DualVec' else ''
+        thm('cong_%s_%s' % (T, pw), "forall (n : %s) (x x' : %s R), %s%sveq_%s x x' -> veq_%s (m_%s x n) (m_%s x' n)" % (nty, T, wfp, wfp2, T, T, pw, pw),
+            ("intros n x x' %s; apply (cong_unary JA_%s (fun x : %s R => m_%s x n) (tw3 (fun d => m_%s d n)) (fun _ : R => True)); auto; "
+             "intros y Wy Dy S F; %s; exact (faa_%s_%s %s S HS).") % (
+                'Wx Wx2' if T != 'DualVec' else '', T, T, pw, pw, ex, T, pw, ('i j n y Wy' if T != 'DualVec' else 'i n y')))
     out.append('')
 open('/verif/coq/ND/Proofs/C07_inst.v', 'w').write('\n'.join(out) + '\n')
 
 props = ['''(* Props/C07.v -- property C07: absent derivative parts behave exactly like all-zero derivative parts.
    veq x y : every part of x and y has the same numerical value (an absent part reads as zero), whatever representation
    each uses.  Written by tools/coqgen/gen_c07.py; only statements, `exact` proofs and the axiom report. *)
-From ND Require Import Tactics C02_proofs C01_towers C01_faa C07_proofs C07_inst.
+From ND Require Import Tactics C02_proofs C01_towers C01_faa C09_proofs C09_faa C07_proofs C07_inst.
 Local Open Scope R_scope.
 ''']
 for n, st in thms:
